@@ -47,8 +47,10 @@ class StaticListPlanning(Planning):
     est/eft/machine id, id-based predecessor lists, io dict, relabelled graph,
     tasks sorted by est) from a list schedule given in the case."""
 
-    def __init__(self, algorithm, assignment, delay_model=None, extras=None, on_plan=None):
+    def __init__(self, algorithm, assignment, delay_model=None, extras=None, on_plan=None,
+                 est_mode='duration'):
         super().__init__(algorithm, delay_model)
+        self.est_mode = est_mode
         self.assignment = assignment      # obs name -> {node: [machine id, est, eft]}
         self.extras = extras or {}
         self.on_plan = on_plan
@@ -84,6 +86,8 @@ class StaticListPlanning(Planning):
         tasks.sort(key=lambda x: x.est)
         exec_order = [t.id for t in tasks]
         eft = max([t.eft for t in tasks] or [0])
+        if self.est_mode == 'future':
+            est = clock + 1000          # an absolute estimate that lies ahead of the clock
         plan = WorkflowPlan(observation.name, est, eft, tasks, exec_order,
                             WorkflowStatus.SCHEDULED, max_ingest, new_graph)
         if self.on_plan:
